@@ -53,8 +53,9 @@ def kf_duplicate_keys(doc, fmt, channel):
 
 
 def kf_holographic(doc, fmt, channel):
-    """F33: a holographic value and the format is json / yaml / markdown."""
-    return fmt != "octave" and PD.has_kind(doc, "holo")
+    """F33 (remainder after fix 45b8e9f, which converts holographic values for json / yaml): a holographic value and the
+    format is markdown (`_format_markdown_value` / the CLI f-string still print the dataclass repr)."""
+    return fmt == "markdown" and PD.has_kind(doc, "holo")
 
 
 def kf_md_bullet_after_subblock(doc, fmt, channel):
@@ -94,8 +95,13 @@ def adjust(model, fmt, classes):
 # ---------------------------------------------------------------------------------------------
 # oracle
 # ---------------------------------------------------------------------------------------------
-def atoms(model):
-    return Counter(PD.flat_atoms(PD.strip_comments(model)))
+def atoms(model, fmt="octave"):
+    """Typed atoms of a model document as format `fmt` represents them: json / yaml show a holographic value as its
+    pattern text (a string) — the representation chosen by fix 45b8e9f."""
+    a = PD.flat_atoms(PD.strip_comments(model))
+    if fmt in ("json", "yaml"):
+        a = [(p, ("str", x[1]) if x[0] == "holo" else x) for p, x in a]
+    return Counter(a)
 
 
 def md_atoms(model):
@@ -125,7 +131,7 @@ def check_cell(src, pivot, ref, mode, fmt, res, has_lossy):
         got = rendering_atoms(fmt, res["out"])
     except PI.Unreadable as e:
         return [("unreadable", str(e))]
-    fa = md_atoms if fmt == "markdown" else atoms
+    fa = md_atoms if fmt == "markdown" else (lambda m: atoms(m, fmt))
     src_c, piv_c, ref_c = fa(src), fa(pivot), fa(ref)
     probs = []
     extra = got - src_c
